@@ -337,7 +337,8 @@ pub fn check_c03(tier: &str) -> i32 {
         let mut w = Wire::new(rtu);
         for req in part {
             st.evaluations += 1;
-            let problems = c03_case(&mut w, req, unit, style, st);
+            let describe = || ("c03".to_string(), format!("{style:?} {}", short(req)), json!({"kind": "c03", "rtu": rtu, "unit": unit, "style": style, "req": req_to_json(req)}));
+            let problems = crate::sim::watchdog::guard(&describe, || c03_case(&mut w, req, unit, style, st));
             st.observe(&(req.fc(), req.span(), problems.len()));
             let failed = !problems.is_empty();
             for (sig, desc) in problems {
@@ -696,7 +697,8 @@ pub fn check_c04(tier: &str) -> i32 {
         let mut s = Sess::new(rtu);
         for rp in &replies {
             st.evaluations += 1;
-            let problems = c04_case(&mut s, req, rp, st);
+            let describe = || ("c04".to_string(), format!("{} reply {}", short(req), hex(rp)), json!({"kind": "c04", "rtu": rtu, "req": req_to_json(req), "reply": crate::checks::server_family::to_hex(rp)}));
+            let problems = crate::sim::watchdog::guard(&describe, || c04_case(&mut s, req, rp, st));
             st.observe(&(req.fc(), rp.len().min(8), rp.first().copied(), problems.len()));
             let failed = !problems.is_empty();
             for (sig, desc) in problems {
